@@ -1226,27 +1226,90 @@ Qed.
 Lemma zs_eqb_refl : forall l, zs_eqb l l = true.
 Proof. intros l. apply zs_eqb_spec. reflexivity. Qed.
 
-(* every round carries the same source rows and starts from the table the model itself has *)
+(* evaluating, in source order, the records whose id is in d: eval_list does what pass_d does *)
+Definition asc_order (d : list Z) (src : list srow) : list Z := filter (fun i => mem_z i d) (map fst src).
+
+Lemma eval_list_pass_d : forall kinds d prev src rest summ hs,
+  NoDup (map fst rest) ->
+  (forall r, In r rest -> cells_of src (fst r) = Some (snd r)) ->
+  (forall r, In r rest -> entry hs (fst r) = entry prev (fst r)) ->
+  exists s' hs' hsr,
+    eval_list kinds src (asc_order d rest) summ hs = (s', hs') /\
+    pass_d kinds d prev rest summ = (s', hsr) /\
+    (forall i, ~ In i (map fst rest) -> entry hs' i = entry hs i) /\
+    Forall2 (fun r rh => fst rh = fst r /\ snd rh = entry hs' (fst r)) rest hsr.
+Proof.
+  intros kinds d prev src rest. induction rest as [|r t IH]; intros summ hs Hnd Hc He.
+  - exists summ, hs, []. repeat split; constructor.
+  - simpl in Hnd. inversion Hnd as [|x l Hx Hl]; subst.
+    unfold asc_order. cbn [map filter pass_d].
+    destruct (mem_z (fst r) d) eqn:Ed.
+    + cbn [eval_list]. rewrite (Hc r (or_introl eq_refl)). rewrite (He r (or_introl eq_refl)).
+      destruct (helper kinds (entry prev (fst r)) summ (snd r)) as [s1 h] eqn:Eh.
+      destruct (IH s1 ((fst r, h) :: hs) Hl) as [s' [hs' [hsr [H1 [H2 [H3 H4]]]]]].
+      { intros r' Hr'. apply Hc. right. exact Hr'. }
+      { intros r' Hr'. simpl. destruct (Z.eqb_spec (fst r) (fst r')) as [E|E].
+        - exfalso. apply Hx. rewrite E. apply in_map. exact Hr'.
+        - apply He. right. exact Hr'. }
+      fold (asc_order d t). rewrite H1, H2. exists s', hs', ((fst r, h) :: hsr).
+      split; [reflexivity|]. split; [reflexivity|]. split.
+      * intros i Hi. rewrite H3 by (intros Hin; apply Hi; right; exact Hin).
+        simpl. destruct (Z.eqb_spec (fst r) i) as [E|E]; [exfalso; apply Hi; left; exact E|reflexivity].
+      * constructor; [|exact H4]. split; [reflexivity|]. simpl. rewrite (H3 (fst r) Hx). simpl.
+        rewrite Z.eqb_refl. reflexivity.
+    + destruct (IH summ hs Hl) as [s' [hs' [hsr [H1 [H2 [H3 H4]]]]]].
+      { intros r' Hr'. apply Hc. right. exact Hr'. }
+      { intros r' Hr'. apply He. right. exact Hr'. }
+      fold (asc_order d t). rewrite H1, H2. exists s', hs', ((fst r, entry prev (fst r)) :: hsr).
+      split; [reflexivity|]. split; [reflexivity|]. split.
+      * intros i Hi. apply H3. intros Hin. apply Hi. right. exact Hin.
+      * constructor; [|exact H4]. split; [reflexivity|]. simpl. rewrite (H3 (fst r) Hx).
+        symmetry. apply He. left. reflexivity.
+Qed.
+
+Lemma cells_of_In : forall src r, NoDup (map fst src) -> In r src -> cells_of src (fst r) = Some (snd r).
+Proof.
+  induction src as [|x t IH]; intros r Hnd Hin; simpl in *; [contradiction|].
+  inversion Hnd as [|y l Hy Hl]; subst. destruct Hin as [->|Hin]; [rewrite Z.eqb_refl; reflexivity|].
+  destruct (Z.eqb_spec (fst x) (fst r)) as [E|E]; [|apply IH; assumption].
+  exfalso. apply Hy. rewrite E. apply in_map. exact Hin.
+Qed.
+
+Lemma pass_o_asc : forall kinds d prev src summ,
+  NoDup (map fst src) -> pass_o kinds (asc_order d src) prev src summ = pass_d kinds d prev src summ.
+Proof.
+  intros kinds d prev src summ Hnd.
+  destruct (eval_list_pass_d kinds d prev src src summ prev Hnd) as [s' [hs' [hsr [H1 [H2 [_ H4]]]]]].
+  - intros r Hr. apply cells_of_In; assumption.
+  - reflexivity.
+  - unfold pass_o. rewrite H1, H2. f_equal.
+    clear H1 H2 Hnd. induction H4 as [|r rh l1 l2 [Hf Hs] _ IH]; simpl; [reflexivity|].
+    rewrite IH. destruct rh as [a b]. simpl in *. subst. reflexivity.
+Qed.
+
+(* every round evaluates in ascending row id order, carries the same source rows and starts from the table the
+   model itself has *)
 Fixpoint rounds_follow (kinds : list kind) (prev : list (Z * list Z)) (src : list srow) (summ : list mrow)
   (rounds : list round) : Prop :=
   match rounds with
   | [] => True
-  | (d, src', start) :: rest =>
-      src' = src /\ start = summ /\
-      rounds_follow kinds (snd (pass_d kinds d prev src summ)) src
-                    (auto_remove (with_groups (fst (pass_d kinds d prev src summ))
-                                              (snd (pass_d kinds d prev src summ)))) rest
+  | (o, src', start) :: rest =>
+      o = asc_order o src /\ src' = src /\ start = summ /\
+      rounds_follow kinds (snd (pass_d kinds o prev src summ)) src
+                    (auto_remove (with_groups (fst (pass_d kinds o prev src summ))
+                                              (snd (pass_d kinds o prev src summ)))) rest
   end.
 
 Lemma settle_rounds_const : forall rounds kinds prev src summ,
-  rounds_follow kinds prev src summ rounds ->
+  NoDup (map fst src) -> rounds_follow kinds prev src summ rounds ->
   settle_rounds kinds prev summ rounds =
   settle_trace kinds prev src summ (map (fun r : round => fst (fst r)) rounds).
 Proof.
-  induction rounds as [|[[d src'] start] rest IH]; intros kinds prev src summ H; [reflexivity|].
-  cbn [rounds_follow] in H. destruct H as [-> [-> H]].
+  induction rounds as [|[[o src'] start] rest IH]; intros kinds prev src summ Hnd H; [reflexivity|].
+  cbn [rounds_follow] in H. destruct H as [Ho [-> [-> H]]].
   cbn [settle_rounds settle_trace map fst snd]. rewrite zs_eqb_refl.
-  destruct (pass_d kinds d prev src summ) as [s1 hs] eqn:Ep. cbn [fst snd] in H.
+  rewrite Ho at 1. rewrite (pass_o_asc _ _ _ _ _ Hnd).
+  destruct (pass_d kinds o prev src summ) as [s1 hs] eqn:Ep. cbn [fst snd] in H.
   destruct rest as [|r rest']; [reflexivity|].
-  specialize (IH kinds hs src _ H). cbn [map] in *. exact IH.
+  specialize (IH kinds hs src _ Hnd H). cbn [map] in *. exact IH.
 Qed.
